@@ -128,6 +128,14 @@ fn gen_case(seed: u64, i: u64, corpus: &Corpus) -> (String, String, Vec<(String,
         let (lk, d) = (mutate::LADDER_KINDS[jj % nk], deep[jj / nk]);
         let text = mutate::ladder(lk, d);
         (kind.into(), format!("{lk} depth {d} ({} bytes)", text.len()), single(text), false)
+      } else if j < nk * (depths.len() + deep.len()) + mutate::WIDE_KINDS.len() * 14 {
+        // width ladders around the parser's size limits
+        let widths = [0usize, 1, 2, 3, 15, 16, 17, 18, 31, 32, 33, 64, 100, 300];
+        let jj = j - nk * (depths.len() + deep.len());
+        let (wk, n) = (mutate::WIDE_KINDS[jj % mutate::WIDE_KINDS.len()], widths[jj / mutate::WIDE_KINDS.len()]);
+        let text = mutate::wide(wk, n);
+        let in_bounds = text.len() <= 8192;
+        (kind.into(), format!("{wk} width {n} ({} bytes)", text.len()), single(text), in_bounds)
       } else {
         // mixed nesting: a random stack of different constructs, total depth <= 120
         let d = 2 + rng.below(119);
@@ -405,7 +413,10 @@ fn main() {
       let (_, again) = pool::run_single(&opts, d.shard, case, Duration::from_secs(if thorough { 1800 } else { 600 }));
       match again {
         Some(a) if a.hang => run.violation(format!("hang:{kind}"), format!("no result after {} alone: {kind} {desc}", a.how), render_modules(&mods)),
-        Some(a) => run.violation(format!("crash:{kind}:{}", a.how), format!("worker died ({}) on {kind} {desc}", a.how), render_modules(&mods)),
+        Some(a) if !in_bounds && (a.stderr_tail.contains("overflowed its stack") || a.how.contains("signal 11") || a.how.contains("signal 6") && a.stderr_tail.contains("stack")) => {
+          deep_observations.push(format!("{desc}: {} (when re-run alone)", a.how));
+        }
+        Some(a) => run.violation(format!("crash:{kind}:{}", a.how), format!("worker died ({}) on {kind} {desc}: {}", a.how, a.stderr_tail.lines().rev().find(|l| !l.trim().is_empty()).unwrap_or("")), render_modules(&mods)),
         None => run.inconclusive("slow case finished when re-run alone (machine load)"),
       }
       continue;
